@@ -222,6 +222,21 @@ def sweep_pairs(pool: dict, tier: str = "quick", vseed: int = 0) -> list[dict]:
     for cc in ("DE", "FR", "GB", "NL", "IT"):  # first use of one country's spec by two threads at once
         if len(vi.get(cc, [])) >= 2:
             g(["iban", vi[cc][0], {}], ["iban", vi[cc][1], {}], f"parse {cc} x {cc} (cold)")
+    # the same BBAN text under two countries at once (objects with equal text must not influence each other)
+    by_len: dict = {}
+    for cc in pool["countries"]:
+        for row in comp.get(cc, [])[:1]:
+            if row[3].isdigit():
+                by_len.setdefault(len(row[3]), []).append(cc)
+    done = 0
+    for key in sorted(pool["de_ibans"]):
+        rej = first(pool["de_ibans"][key], lambda c: c.startswith("reject"))
+        others = [c for c in by_len.get(18, []) if c != "DE"]
+        if rej and others and done < 3:
+            text = rej[4:]
+            g(["from_bban", "DE", text, {"validate_bban": True}], ["bban_props", others[done % len(others)], text],
+              f"same BBAN text under DE and {others[done % len(others)]}")
+            done += 1
     g(["iban", vi["DE"][0], {}], ["iban", pool["odd_ibans"][0][1], {}], "parse valid x odd")
     g(["iban_props", vi["DE"][0]], ["iban_props", vi["FR"][0]], "props DE x FR")
     g(["iban_props", vi["GB"][0]], ["bic_props", pool["bics"]["registry"][0]], "props x bic_props")
